@@ -1,1 +1,2 @@
 import SsoSpec.C15
+import SsoSpec.C16
